@@ -16,6 +16,39 @@ def _lowrank(npr, shape, dtype, rank):
     return (a @ b).astype(dtype)
 
 
+def structured_blocks(rng, npr, x, dtype):
+    """Give the square blocks of x an exact structure (the kind of input a shortcut might
+    special-case): symmetric, complex symmetric (NOT hermitian), hermitian, diagonal, diagonal
+    of phases, triangular, orthogonal / unitary, constant. -> name of the structure or None"""
+    cplx = np.dtype(dtype).kind == "c"
+    st = rng.choice(["symmetric", "symmetric", "hermitian", "diagonal", "phases", "triangular", "unitary", "constant", "antisymmetric"])
+    done = False
+    for s_, b in list(x.blocks.items()):
+        b = np.asarray(b)
+        if b.ndim != 2 or b.shape[0] != b.shape[1]:
+            continue
+        n = b.shape[0]
+        if st == "symmetric":
+            v = b + b.T  # complex: symmetric but not hermitian
+        elif st == "antisymmetric":
+            v = b - b.T
+        elif st == "hermitian":
+            v = b + b.conj().T
+        elif st == "diagonal":
+            v = np.diag(np.diag(b))
+        elif st == "phases":
+            v = np.diag(np.exp(1j * npr.uniform(0, 2 * np.pi, size=n))) if cplx else np.diag(npr.choice([-1.0, 1.0], size=n))
+        elif st == "triangular":
+            v = np.triu(b)
+        elif st == "unitary":
+            v = np.linalg.qr(b)[0] if n else b
+        else:
+            v = np.full_like(b, b.reshape(-1)[0] if b.size else 1.0)
+        x.blocks[s_] = np.ascontiguousarray(v.astype(b.dtype))
+        done = True
+    return st if done else None
+
+
 def rand_matrix(ctx, rng, sym=None, fermionic=None, kind=None, dtype=None, square=False, uniform=False, min_charges=1, nphase=None, sparsity=None, max_charges=3):
     """-> (x, features:set). kind in direct|fused|deficient."""
     sr = ctx.sr
@@ -43,6 +76,11 @@ def rand_matrix(ctx, rng, sym=None, fermionic=None, kind=None, dtype=None, squar
             return None, feats
     else:
         maxd = rng.choice([2, 3, 5])
+        if not uniform and rng.random() < 0.06:
+            # a few large sectors (16..24): beyond any small-block special-casing
+            maxd = 24
+            max_charges = min(max_charges, 2)
+            feats.add("large-blocks")
         if uniform:
             d = rng.randint(1, 4)
             pool = gen.POOL[sym]
@@ -51,14 +89,20 @@ def rand_matrix(ctx, rng, sym=None, fermionic=None, kind=None, dtype=None, squar
             cs2 = rng.sample(pool, rng.randint(min(min_charges, len(pool)), min(3, len(pool))))
             c = sr.BlockIndex({c_: d for c_ in cs2}, dual=rng.random() < 0.5)
         else:
-            r = gen.rand_index(sr, rng, sym, maxc=max_charges, maxd=maxd, p_single=0.03, minc=min_charges)
-            c = gen.rand_index(sr, rng, sym, maxc=max_charges, maxd=maxd, p_single=0.03, minc=min_charges)
+            mind = 16 if maxd == 24 else 1
+            r = gen.rand_index(sr, rng, sym, maxc=max_charges, maxd=maxd, mind=mind, p_single=0.03, minc=min(min_charges, max_charges))
+            c = gen.rand_index(sr, rng, sym, maxc=max_charges, maxd=maxd, mind=mind, p_single=0.03, minc=min(min_charges, max_charges))
         if square:
             c = gen.conj_index(sr, r)
             charge = R.identity(sym)
         else:
             charge = None
         x = gen.make_array(sr, rng, sym, [r, c], charge=charge, fermionic=fermionic, values=vals, sparsity=sparsity, nphase=0)
+        if kind == "direct" and rng.random() < 0.12:
+            st = structured_blocks(rng, npr, x, dtype)
+            if st:
+                feats.add("structured-blocks")
+                feats.add("structure:" + st)
         if kind == "deficient":
             for s, b in list(x.blocks.items()):
                 if min(b.shape) >= 2 and rng.random() < 0.7:
